@@ -191,9 +191,8 @@ func (w *c10World) do(cs c10Case, pos string, segs ...string) c10Resp {
 		r.DecErr = err.Error()
 	}
 	// the default recover handler writes a stack trace: keep the first line only
-	if i := strings.Index(r.Body, "\r\n"); i >= 0 && strings.Contains(r.Body, "recover from panic situation") {
-		r.Body = r.Body[:i]
-	}
+	// (the default recover handler appends a stack trace; bodies of panicking requests are only
+	// inspected, never compared as a whole)
 	return r
 }
 
@@ -289,16 +288,23 @@ func c10Run(cs c10Case) []c10Issue {
 				bad("recover-handler", "panic at %s: %d recover handler call(s) so far (%v), expected %d, the last with %v", pos, callsAfter[i], w.recCalls, calls, val)
 			}
 		}
-		wantStatus, wantBody := 500, fmt.Sprintf("recover from panic situation: - %v", val)
 		if cs.Recovery == "custom" {
-			wantStatus, wantBody = 503, fmt.Sprintf("custom-recovered:%v", val)
-		}
-		if !wroteBefore(pos) {
-			if r.Code != wantStatus || r.Body != wantBody {
-				bad("recovered-response", "panic at %s before any output: client sees %s, expected status %d body %q", pos, r.key(), wantStatus, wantBody)
+			wantStatus, wantBody := 503, fmt.Sprintf("custom-recovered:%v", val)
+			if !wroteBefore(pos) {
+				if r.Code != wantStatus || r.Body != wantBody {
+					bad("recovered-response", "panic at %s before any output: client sees %s, expected status %d body %q", pos, r.key(), wantStatus, wantBody)
+				}
+			} else if !strings.HasSuffix(r.Body, wantBody) {
+				bad("recovered-response", "panic at %s after output: body %q does not end with what the recover handler wrote %q", pos, r.Body, wantBody)
 			}
-		} else if !strings.HasSuffix(r.Body, wantBody) {
-			bad("recovered-response", "panic at %s after output: body %q does not end with what the recover handler wrote %q", pos, r.Body, wantBody)
+		} else {
+			// default handler: 500 and a body that names the panic value (its wording is not part of the property)
+			if !wroteBefore(pos) && r.Code != 500 {
+				bad("recovered-response", "panic at %s before any output: client sees %s, expected the default handler's status 500", pos, r.key())
+			}
+			if !strings.Contains(r.Body, fmt.Sprint(val)) {
+				bad("recovered-response", "panic at %s: body %q does not contain what the default recover handler reports (%v)", pos, r.Body, val)
+			}
 		}
 	}
 	for _, m := range w.led.report(true) {
